@@ -141,6 +141,14 @@ def compare_ops(col, ddf, case, bxs, geom_cols, sjoin_ok, deep=True):
         ptb = tuple(float(v) for v in P[active].total_bounds)
         if not eqf(dtb, ptb):
             col.violation("total_bounds", case, f"dask total_bounds {dtb} vs pandas {ptb}", cached=case.get("cached"))
+        # every geometry column of the collection (not only the active one) reports its own extent
+        for c in geom_cols:
+            if c in ddf.columns and c != active:
+                col.count("evaluations")
+                otb = tuple(float(v) for v in ddf[c].total_bounds)
+                ptb2 = tuple(float(v) for v in P[c].total_bounds)
+                if not eqf(otb, ptb2):
+                    col.violation("total_bounds.other_column", dict(case, column=c), f"dask total_bounds of {c} {otb} vs pandas {ptb2}")
         for name in ("area", "length"):
             dv = getattr(gs, name).compute(scheduler=S)
             pv = getattr(P[active], name)
